@@ -32,7 +32,7 @@ REAL = ["bec2format.bec2file (InitEccAuthBlock, EccEncryptor, EccDecryptor)", "b
         "ecdsa (keys, ecdh, ellipticcurve, util.randrange)", "pyaes"]
 STUBS = ["RNG: SimRng behind os.urandom shims", "key generation observer (register_PrivateEccKey)",
          "device model: RefP256 + RefAES", "openssl binary (thorough tier sample)"]
-PROBES = ["shared-encryptor-two-threads", "keystore-decoys", "default-recipient", "selector-nonzero-default", "edge-recipient-scalar", "edge-ephemeral-scalar",
+PROBES = ["ext-encryptors-not-a-list", "shared-encryptor-two-threads", "keystore-decoys", "default-recipient", "selector-nonzero-default", "edge-recipient-scalar", "edge-ephemeral-scalar",
           "randrange-retry", "session-key-trailing-zero", "point-off-curve-rejected", "point-coordinate-ge-p",
           "point-zero", "point-negated-still-on-curve", "openssl-agrees"]
 THOROUGH_ONLY_PROBES = ["openssl-agrees"]
@@ -72,6 +72,7 @@ def gen(st, tier):
         damage = [kind, f.randrange(64), f.randrange(8)]
     return {"sel": w.randrange(4), "recip": recip, "skey": bytes(k).hex(), "eph": eph,
             "rng": w.getrandbits(32), "damage": damage, "decoys": w.random() < 0.4,
+            "container": w.choice(["list", "list", "tuple", "iter", "generator"]),
             "ossl": tier == "thorough" and w.random() < 0.02}
 
 
@@ -217,8 +218,12 @@ def run(case):
             out.probes["keystore-decoys"] += 1
             ext = [e for e, _ in decoys] + ext
         ndraw0 = len(rng.draws)
+        kind_ = case.get("container", "list")
+        if kind_ != "list":
+            out.probes["ext-encryptors-not-a-list"] += 1
+        ext_arg = {"list": list, "tuple": tuple, "iter": iter, "generator": lambda x: (e for e in x)}[kind_](ext)
         try:
-            raw = block.pack(skey, ext)
+            raw = block.pack(skey, ext_arg)
         except Exception as e:
             out.fail("C09.pack-raises", exc_site(e), "packing an ECC block (selector %d) raised %s: %s"
                      % (sel, type(e).__name__, e))
